@@ -35,7 +35,7 @@ def dim(entries):
 
 
 def k_of(name):
-    return (name,)   # freeze(BaseUnit{id: Arc<String>}) == (string,)
+    return name   # freeze(BaseUnit{id: Arc<String>}) collapses to the string (Borrow<str>)
 
 
 def number(value, unit):
@@ -65,7 +65,7 @@ def dim_entries(d):
     d = deref_all(d)
     assert isinstance(d, Struct) and d.name == 'Dimensionality', d
     m = d.fields[0]
-    return {k[0]: (p, e) for k, (kv, p, e) in m.ent.items()}
+    return {(k if isinstance(k, str) else k[0]): (p, e) for k, (kv, p, e) in m.ent.items()}
 
 
 def sym_dim(ex, I, tag, universe, exp_ty='i64', nonzero=True, lo=None, hi=None):
